@@ -48,8 +48,12 @@ func (mk *MemKeystore) Get(name string) (ci.PrivKey, error) {
 	return k, nil
 }
 
-// Delete remove a key from the Keystore
+// Delete remove a key from the Keystore, and returns ErrNoSuchKey if there is
+// no key with the given name (like FSKeystore, which fails to remove the file).
 func (mk *MemKeystore) Delete(name string) error {
+	if _, ok := mk.keys[name]; !ok {
+		return ErrNoSuchKey
+	}
 	delete(mk.keys, name)
 	return nil
 }
